@@ -2,6 +2,7 @@
 // hypotheses are exactly the postconditions proved above for the real methods.
 
 // nothing is sent after shutdown, by any operation
+#[verifier::spinoff_prover]
 pub proof fn thm_nothing_after_shutdown(pre: HttpConn, post: HttpConn, resp: Response,
         rw: Result<(), HttpError>, rq: Result<Request, HttpError>, rb: Result<RequestBody, HttpError>, max: Option<u64>)
     requires pre.write_state == WriteState::Shutdown
@@ -14,6 +15,7 @@ pub proof fn thm_nothing_after_shutdown(pre: HttpConn, post: HttpConn, resp: Res
 }
 // a final response cannot be sent twice: after a successful non-interim response, the next
 // write_response is refused with ResponseAlreadySent (or Disconnected after a 5xx) and writes nothing
+#[verifier::spinoff_prover]
 pub proof fn thm_no_second_final_response(s0: HttpConn, s1: HttpConn, s2: HttpConn, a: Response, b: Response, r2: Result<(), HttpError>)
     requires
         s0.write_state == WriteState::Response,
@@ -27,6 +29,7 @@ pub proof fn thm_no_second_final_response(s0: HttpConn, s1: HttpConn, s2: HttpCo
 {
 }
 // interim (1xx) responses do not discharge the owed response
+#[verifier::spinoff_prover]
 pub proof fn thm_interim_keeps_owed(s0: HttpConn, s1: HttpConn, a: Response)
     requires s0.write_state == WriteState::Response, 100 <= a.code <= 199, conn_write_response_post(s0, s1, a, Ok(()))
     ensures s1.write_state == WriteState::Response
@@ -34,6 +37,7 @@ pub proof fn thm_interim_keeps_owed(s0: HttpConn, s1: HttpConn, a: Response)
 }
 // C08: a failed write that sent at least one byte shuts the write side down, so whatever is tried
 // afterwards adds nothing to the wire: the client saw a prefix of the one serialisation and nothing else
+#[verifier::spinoff_prover]
 pub proof fn thm_failed_write_is_final(s0: HttpConn, s1: HttpConn, s2: HttpConn, a: Response, b: Response, e: HttpError, r2: Result<(), HttpError>)
     requires
         s0.write_state == WriteState::Response,
@@ -46,6 +50,7 @@ pub proof fn thm_failed_write_is_final(s0: HttpConn, s1: HttpConn, s2: HttpConn,
 {
 }
 // C08: if nothing was sent, exactly one further response can still be carried
+#[verifier::spinoff_prover]
 pub proof fn thm_failed_write_nothing_sent(s0: HttpConn, s1: HttpConn, a: Response, e: HttpError)
     requires
         s0.write_state == WriteState::Response,
@@ -57,6 +62,7 @@ pub proof fn thm_failed_write_nothing_sent(s0: HttpConn, s1: HttpConn, a: Respon
     assert(wire(s1) =~= wire(s0));
 }
 // a request cannot be read while a response is owed or a body is unread
+#[verifier::spinoff_prover]
 pub proof fn thm_read_request_guards(pre: HttpConn, post: HttpConn, r: Result<Request, HttpError>)
     requires conn_read_request_post(pre, post, r), pre.write_state == WriteState::Response || pre.read_state is Body
     ensures r is Err, same_conn(pre, post)
